@@ -271,7 +271,7 @@ func corpus(tier string, rng *rand.Rand) (subs []*subject, rejected []string) {
 	add("api:mid(12 funcs)", "api", apiBig(rng, 12))
 	nf := 40
 	if tier == "thorough" {
-		nf = 80
+		nf = 64
 	}
 	add(fmt.Sprintf("api:big(%d funcs)", nf), "api", apiBig(rng, nf))
 	return subs, rejected
